@@ -60,8 +60,13 @@ func c10(c *Ctx) {
 		if c.Quick() && combo%3 != 0 {
 			continue
 		}
-		ets := etLists[combo%len(etLists)]
+		ets := etLists[(combo/3+combo)%len(etLists)] // the quick tier takes every third combination: still every list
 		cfg := testConfig(realm, []string{k.Addr}, ets)
+		if combo%2 == 0 && len(ets) > 1 {
+			// a split configuration: the TGS exchange is restricted to the last type of the AS list
+			cfg.LibDefaults.DefaultTGSEnctypeIDs = []int32{ets[len(ets)-1]}
+			c.Count("fields:split-etype-lists")
+		}
 		cfg.LibDefaults.Forwardable = combo&1 != 0
 		cfg.LibDefaults.Proxiable = combo&2 != 0
 		cfg.LibDefaults.Canonicalize = combo&4 != 0
@@ -130,8 +135,28 @@ func c10(c *Ctx) {
 			c.Check(len(b.Addresses) == 0 == cfg.LibDefaults.NoAddresses || !cfg.LibDefaults.NoAddresses, "addresses are sent only when noaddresses is off", "addresses", "", inp)
 			c.Check(b.CName.Equal(types.PrincipalName{NameString: []string{"testuser1"}}) && b.Realm == realm && b.SName.Equal(types.PrincipalName{NameString: []string{"krbtgt", realm}}), "AS-REQ names the client, its realm and the TGS", "asreq-names", "", inp)
 		}
-		_, _, err = cl.GetServiceTicket("HTTP/host.test.gokrb5")
+		nT := len(k.Requests)
+		_, skey, err := cl.GetServiceTicket("HTTP/host.test.gokrb5")
 		c.Check(err == nil, "a service ticket is obtained", "tgs-fails", fmt.Sprint(err), inp)
+		// the TGS-REQ carries the encryption types configured for the TGS exchange (default_tgs_enctypes), which need not
+		// be the list of the AS exchange; the session key comes from that list
+		for _, rq := range k.Requests[nT:] {
+			if rq.Kind != "TGS" {
+				continue
+			}
+			same := len(rq.TGS.ReqBody.EType) == len(cfg.LibDefaults.DefaultTGSEnctypeIDs)
+			for i := range rq.TGS.ReqBody.EType {
+				same = same && rq.TGS.ReqBody.EType[i] == cfg.LibDefaults.DefaultTGSEnctypeIDs[i]
+			}
+			c.Check(same, "the TGS-REQ carries the configured default_tgs_enctypes", "tgsreq-etypes", fmt.Sprintf("sent %v configured %v", rq.TGS.ReqBody.EType, cfg.LibDefaults.DefaultTGSEnctypeIDs), inp)
+		}
+		if err == nil {
+			in := false
+			for _, e := range cfg.LibDefaults.DefaultTGSEnctypeIDs {
+				in = in || e == skey.KeyType
+			}
+			c.Check(in, "the service session key has an encryption type the configuration allows for the TGS exchange", "tgs-session-etype", fmt.Sprint(skey.KeyType), inp)
+		}
 		cl.Destroy()
 	}
 	k.RequirePreauth = false
